@@ -230,14 +230,20 @@ func (u *Unit) build() {
 func (u *Unit) script(o *Obligation, active map[string]bool) string {
 	var b strings.Builder
 	skip := map[int]bool{}
+	inAxiom := map[int]bool{}
+	for _, ar := range u.axioms {
+		for i := ar.from; i < ar.to; i++ {
+			inAxiom[i] = true
+		}
+	}
 	for _, ar := range u.axioms {
 		if len(ar.syms) == 0 || ar.to > o.Prefix {
 			continue
 		}
 		used := false
 		for i, l := range u.c.lines[:o.Prefix] {
-			if i >= ar.from && i < ar.to || strings.HasPrefix(l, "(declare-") {
-				continue
+			if inAxiom[i] || strings.HasPrefix(l, "(declare-") {
+				continue // other axioms do not make an axiom relevant
 			}
 			for _, s := range ar.syms {
 				if strings.Contains(l, s) {
@@ -461,12 +467,9 @@ func (u *Unit) vacuity() string {
 		return "n/a"
 	}
 	rc := u.reach[0]
-	var b strings.Builder
-	for _, l := range u.c.lines[:rc.Prefix] {
-		b.WriteString(l)
-		b.WriteByte('\n')
-	}
-	r := Solve(b.String(), nil, 3, false)
+	// same query construction as for obligations (axioms that no line mentions are left out: quantified
+	// axioms only turn a "sat" into "unknown" here)
+	r := Solve(u.script(&Obligation{Prefix: rc.Prefix, Goal: TFalse}, map[string]bool{}), nil, 3, false)
 	switch r.Status {
 	case "sat":
 		return "preconditions satisfiable (" + r.Solver + ")"
